@@ -28,8 +28,8 @@ def run(tier, seed):
     n = vc.triage(PID, viol)
     cov = dict(tot)
     cov.update({"rule": "all ordered triples over the event alphabet timestamps x anti flag x type{0,1,2} x payload size{0,1,32,33,40} "
-                        "x content variants (first/32nd/33rd/last byte), for msg_is_before and q_elem_is_before, plus 6 non-content "
-                        "variants of every event (PROCESSED bit, remote id bits, m_seq, dest, next, address) against every event; "
+                        "x content variants (first/32nd/33rd/last byte), for msg_is_before and q_elem_is_before, plus 7 non-content "
+                        "variants of every event (PROCESSED bit, remote id bits, m_seq, dest, next, address, buffer bytes beyond the payload) against every event; "
                         "non-trivial = triple of three distinct events with equal timestamps (decided by the tie-break)",
                 "alphabet": reps[0].get("alphabet")})
     vc.write_evidence(PID, tier, "model_checking", cov, ["finite alphabet of payload sizes/contents; gcc -O2 inlining of the real header"],
